@@ -506,6 +506,9 @@ fn gen_scenarios(seed: u64, n: usize, tier: &str, prefix: &str) -> Vec<(String, 
                 _ => {}
             }
         }
+        if rng.chance(1, 2) {
+            randomize_world(&mut s, &mut rng);
+        }
         out.push((format!("{}{}-{}", prefix, seed, j), s));
     }
     out
@@ -556,4 +559,140 @@ fn witnesses() -> Vec<(&'static str, Scn)> {
         ("ll-broadcast-unicast-ip6-udp-port-unreachable-eth", rx6(Med::Eth, 0, 0, Ll::Eth(0xffff_ffff_ffff), PEER6G, OWN6G, None, Upper::Udp { sp: 40000, dp: 9, len: 10 })),
         ("ll-broadcast-unicast-ip6-udp-port-unreachable-154", rx6(Med::M154, 0, 0, Ll::Short(0xffff), PEER6G, OWN6G, None, Upper::Udp { sp: 40000, dp: 9, len: 10 })),
     ]
+}
+
+// ---- quick tier only: move the scenario into a random "world" (other subnet / prefix length /
+// host numbers, other IPv6 prefix and interface identifier) so that the address algebra is
+// exercised beyond the representative addresses of the class product
+fn map_scn_ips(s: &mut Scn, f: &dyn Fn(Ip) -> Ip) {
+    for a in s.addrs.iter_mut() {
+        a.0 = f(a.0);
+    }
+    for g in s.groups.iter_mut() {
+        *g = f(*g);
+    }
+    for r in s.routes.iter_mut() {
+        r.2 = f(r.2);
+    }
+    for n in s.neigh.iter_mut() {
+        n.0 = f(n.0);
+    }
+    for k in s.socks.iter_mut() {
+        match k {
+            SockSpec::TcpL(a, _) | SockSpec::Udp(a, _) | SockSpec::Icmp(IcmpBind::Udp(a, _)) | SockSpec::Icmp(IcmpBind::Tcp(a, _)) => {
+                if let Some(x) = a {
+                    *x = f(*x);
+                }
+            }
+            SockSpec::TcpC(la, _, ra, _) => {
+                *la = f(*la);
+                *ra = f(*ra);
+            }
+            SockSpec::Dns(l) => {
+                for x in l.iter_mut() {
+                    *x = f(*x);
+                }
+            }
+            _ => {}
+        }
+    }
+    match &mut s.ev {
+        Event::Rx(rx) => {
+            rx.src = f(rx.src);
+            rx.dst = f(rx.dst);
+        }
+        Event::TxUdp { dst, .. } | Event::TxConnect { dst, .. } => *dst = f(*dst),
+    }
+}
+
+fn randomize_world(s: &mut Scn, rng: &mut Rng) {
+    // IPv4: 10.0.0.0/24 -> net/plen; host .1 .2 .77 .254 .255 .0 keep their roles
+    let plen: u8 = *rng.pick(&[8u8, 12, 16, 20, 24, 24, 25, 27, 30, 31]);
+    let hostbits = 32 - plen as u32;
+    let hostmask: u32 = if hostbits == 32 { u32::MAX } else { (1u32 << hostbits) - 1 };
+    let base: u32 = match rng.below(3) {
+        0 => 0x0a00_0000 | ((rng.next() as u32) & 0x00ff_ffff),
+        1 => 0xc0a8_0000 | ((rng.next() as u32) & 0xffff),
+        _ => 0x6440_0000 | ((rng.next() as u32) & 0x003f_ffff),
+    } & !hostmask;
+    let host = |h: u32| -> u32 {
+        // canonical host number -> host number in the new subnet
+        match h {
+            0 => 0,
+            255 => hostmask,
+            254 => hostmask.wrapping_sub(1) & hostmask,
+            1 => 1 & hostmask,
+            2 => 2 & hostmask,
+            x => (x.wrapping_mul(2654435761) >> 7) & hostmask,
+        }
+    };
+    // IPv6: 2001:db8:0:0::/64 -> another global / unique-local prefix; the interface identifier
+    // ::ab:cd01 -> a random one whose look-alikes keep their relation to it
+    let p6: u128 = {
+        let top: u128 = if rng.chance(1, 3) { 0xfd00 | (rng.next() as u128 & 0xff) } else { 0x2000 | (rng.next() as u128 & 0x1fff) };
+        (top << 112) | ((rng.next() as u128 & 0xffff_ffff_ffff) << 64)
+    };
+    let iid: u128 = (rng.next() as u128) & 0xffff_ffff_ffff_ffff | 0x0100; // never ::0 / ::1
+    let low24 = iid & 0xff_ffff;
+    let plen6: u8 = *rng.pick(&[64u8, 64, 48, 56, 96, 120]);
+    let v4world = plen != 24 || rng.chance(1, 2);
+    let f = move |ip: Ip| -> Ip {
+        match ip {
+            Ip::V4(a) if v4world && (a >> 8) == 0x0a00_00 => Ip::V4(base | host(a & 0xff)),
+            Ip::V6(a) => {
+                let canon_prefix: u128 = 0x2001_0db8u128 << 96;
+                let canon_iid: u128 = 0x00ab_cd01;
+                if a >> 64 == canon_prefix >> 64 {
+                    // addresses of the own /64: own address gets the new iid, the others keep theirs
+                    let tail = a & 0xffff_ffff_ffff_ffff;
+                    Ip::V6(p6 | if tail == canon_iid { iid } else { tail })
+                } else if a == (0x2001_0db8_0005u128 << 80) | canon_iid {
+                    Ip::V6(((0x2001_0db8_0005u128 << 80) & !0xffff_ffff_ffff_ffffu128) | iid) // look-alike unicast: same iid, foreign prefix
+                } else if a == (0xff02u128 << 112) | (1u128 << 32) | 0xffab_cd01 {
+                    Ip::V6((0xff02u128 << 112) | (1u128 << 32) | 0xff00_0000 | low24)
+                } else if a == (0xff05u128 << 112) | canon_iid {
+                    Ip::V6((0xff05u128 << 112) | low24)
+                } else if a == (0xff02u128 << 112) | (1u128 << 32) | 0xff99_cd01 {
+                    Ip::V6((0xff02u128 << 112) | (1u128 << 32) | 0xff00_0000 | ((low24 ^ 0x55_0000) & 0xff_ffff))
+                } else {
+                    Ip::V6(a)
+                }
+            }
+            x => x,
+        }
+    };
+    map_scn_ips(s, &f);
+    for a in s.addrs.iter_mut() {
+        match a.0 {
+            Ip::V4(x) if v4world && (x & !hostmask) == base && a.1 == 24 => a.1 = plen,
+            Ip::V6(x) if x >> 64 == p6 >> 64 => a.1 = plen6,
+            _ => {}
+        }
+    }
+    // the neighbor cache can only hold what process_arp accepts: unicast sources inside one of our subnets
+    let addrs = s.addrs.clone();
+    s.neigh.retain(|(ip, _)| match ip {
+        Ip::V4(x) => {
+            let uni = *x != 0 && *x != u32::MAX && (x >> 28) != 0xe;
+            uni && addrs.iter().any(|(o, pl)| match o {
+                Ip::V4(o) => {
+                    let m: u32 = if *pl == 0 { 0 } else { u32::MAX << (32 - *pl as u32) };
+                    (o & m) == (x & m)
+                }
+                _ => false,
+            })
+        }
+        Ip::V6(x) => (x >> 120) != 0xff && *x != 0,
+    });
+    // duplicates (tiny subnets make roles coincide) would be filled twice: keep the last entry, as the cache does
+    let mut seen: Vec<Ip> = vec![];
+    let mut out = vec![];
+    for (ip, ll) in s.neigh.iter().rev() {
+        if !seen.contains(ip) {
+            seen.push(*ip);
+            out.push((*ip, *ll));
+        }
+    }
+    out.reverse();
+    s.neigh = out;
 }
